@@ -267,6 +267,7 @@ class _ConstMethods(ast.NodeTransformer):
         self.generic_visit(node)
         consts: Dict[str, ast.AST] = {}
         props: Dict[str, ast.AST] = {}
+        tables: Dict[str, Tuple[List[str], ast.AST]] = {}
         for st in node.body:
             if isinstance(st, ast.FunctionDef) and len(st.decorator_list) == 1 and isinstance(st.decorator_list[0], ast.Name) and st.decorator_list[0].id == "property" \
                     and len(st.args.args) == 1 and not (st.args.vararg or st.args.kwarg or st.args.kwonlyargs or st.args.posonlyargs) \
@@ -282,7 +283,15 @@ class _ConstMethods(ast.NodeTransformer):
                     names = {x.id for x in ast.walk(body[0].value) if isinstance(x, ast.Name)}
                     if self.defined.get(st.name, 0) == 1 and st.name.startswith("_"):
                         consts[st.name] = (st.args.args[0].arg, body[0].value)
-        if not consts and not props:
+            elif isinstance(st, ast.FunctionDef) and not st.decorator_list and len(st.args.args) >= 2 and not (st.args.vararg or st.args.kwarg or st.args.kwonlyargs or st.args.posonlyargs) \
+                    and not st.args.defaults and self.defined.get(st.name, 0) == 1 and st.name.startswith("_"):
+                # a private method with parameters whose whole body is `return <display of pure expressions>` (option tables built
+                # from the arguments: `{"group_name": group_name, "end_callback": self._end_callback}`)
+                body = [b for b in st.body if not (isinstance(b, ast.Expr) and isinstance(b.value, ast.Constant))]
+                if len(body) == 1 and isinstance(body[0], ast.Return) and isinstance(body[0].value, (ast.Tuple, ast.List, ast.Dict)) and _pure(body[0].value) \
+                        and (body[0].value.elts if not isinstance(body[0].value, ast.Dict) else body[0].value.keys):
+                    tables[st.name] = ([a.arg for a in st.args.args], body[0].value)
+        if not consts and not props and not tables:
             return node
         import copy
         outer = self
@@ -303,6 +312,30 @@ class _ConstMethods(ast.NodeTransformer):
                                 x.id = self.selfname
                     outer.inlined += 1
                     return ast.copy_location(new, c)
+                if isinstance(c.func, ast.Attribute) and isinstance(c.func.value, ast.Name) and c.func.value.id == self.selfname and c.func.attr in tables \
+                        and not any(isinstance(a_, ast.Starred) for a_ in c.args) and all(k.arg is not None for k in c.keywords):
+                    params, disp = tables[c.func.attr]
+                    pself, rest = params[0], params[1:]
+                    bound: Dict[str, ast.AST] = dict(zip(rest, c.args))
+                    for k in c.keywords:
+                        if k.arg in bound or k.arg not in rest:
+                            return c
+                        bound[k.arg] = k.value
+                    # every argument a pure read (written where the parameter stood, possibly more than once or never)
+                    if len(c.args) > len(rest) or set(bound) != set(rest) or not all(_pure(v) and not isinstance(v, (ast.Tuple, ast.List, ast.Dict)) for v in bound.values()):
+                        return c
+
+                    class Sub(ast.NodeTransformer):
+                        def visit_Name(self_, n: ast.Name):
+                            if n.id in bound:
+                                return ast.copy_location(copy.deepcopy(bound[n.id]), n)
+                            if n.id == pself:
+                                return ast.copy_location(ast.Name(id=self.selfname, ctx=ast.Load()), n)
+                            return n
+
+                    new = Sub().visit(copy.deepcopy(disp))
+                    outer.inlined += 1
+                    return ast.copy_location(new, c)
                 return c
 
             def visit_Attribute(self, a: ast.Attribute):
@@ -319,9 +352,61 @@ class _ConstMethods(ast.NodeTransformer):
                 return a
 
         for st in node.body:
-            if isinstance(st, _FUNCS) and st.args.args and st.name not in consts and st.name not in props:
+            if isinstance(st, _FUNCS) and st.args.args and st.name not in consts and st.name not in props and st.name not in tables:
                 Repl(st.args.args[0].arg).visit(st)
         return node
+
+
+class _StarDisplays(ast.NodeTransformer):
+    """`f(x, **{"a": A, "b": B})` -> `f(x, a=A, b=B)` (keys constant identifiers, not repeated among the call's keywords) and
+    `f(*[A, B])` / `f(*(A, B))` -> `f(A, B)`: same values, same evaluation order."""
+    def visit_Call(self, c: ast.Call):
+        self.generic_visit(c)
+        kws: List[ast.keyword] = []
+        for k in c.keywords:
+            if k.arg is None and isinstance(k.value, ast.Dict) and k.value.keys and all(isinstance(x, ast.Constant) and isinstance(x.value, str) and x.value.isidentifier() for x in k.value.keys):
+                kws += [ast.copy_location(ast.keyword(arg=x.value, value=v), k.value) for x, v in zip(k.value.keys, k.value.values)]
+            else:
+                kws.append(k)
+        names = [k.arg for k in kws if k.arg is not None]
+        if len(names) == len(set(names)):
+            c.keywords = kws
+        args: List[ast.expr] = []
+        for a in c.args:
+            if isinstance(a, ast.Starred) and isinstance(a.value, (ast.List, ast.Tuple)) and not any(isinstance(x, ast.Starred) for x in a.value.elts):
+                args += list(a.value.elts)
+            else:
+                args.append(a)
+        c.args = args
+        return c
+
+
+class _MapCalls(ast.NodeTransformer):
+    """`map(F, X)` -> `(F(v) for v in X)` where F is a plain name or attribute chain (a pure read: evaluating it per item instead
+    of once changes nothing) and there is one iterable: both call iter(X) at once and F(item) at each step.  Directly inside
+    list() / set() the generator just made is written as the comprehension (`list(map(F, X))` -> `[F(v) for v in X]`)."""
+    def __init__(self):
+        self.k = 0
+        self.made = set()
+
+    def visit_Call(self, c: ast.Call):
+        self.generic_visit(c)
+        if isinstance(c.func, ast.Name) and c.func.id == "map" and len(c.args) == 2 and not c.keywords \
+                and not any(isinstance(a, ast.Starred) for a in c.args) and _pure_chain(c.args[0]):
+            self.k += 1
+            v = f"_m{self.k}"
+            call = ast.Call(func=c.args[0], args=[ast.Name(id=v, ctx=ast.Load())], keywords=[])
+            gen = [ast.comprehension(target=ast.Name(id=v, ctx=ast.Store()), iter=c.args[1], ifs=[], is_async=0)]
+            new: ast.expr = ast.GeneratorExp(elt=call, generators=gen)
+            for x in ast.walk(new):
+                ast.copy_location(x, c)
+            self.made.add(id(new))
+            return new
+        if isinstance(c.func, ast.Name) and c.func.id in ("list", "set") and len(c.args) == 1 and not c.keywords and id(c.args[0]) in self.made:
+            g = c.args[0]
+            new = ast.ListComp(elt=g.elt, generators=g.generators) if c.func.id == "list" else ast.SetComp(elt=g.elt, generators=g.generators)
+            return ast.copy_location(new, c)
+        return c
 
 
 class _Unroll(ast.NodeTransformer):
@@ -428,14 +513,20 @@ def _negate(t: ast.AST) -> ast.AST:
 
 
 class _GenInline:
-    """`for T in self.g(args): BODY` / `for T in g(args): BODY` where g is a plain generator function of the same class / module whose
-    every `yield E` is a statement of its own: the loop is replaced by g's body (its locals renamed apart, its parameters bound to the
-    arguments in call order) with every `yield E` replaced by `T = E; BODY`.  That is what the loop does - the generator runs up to
-    a yield, the body runs with the yielded value, the generator is resumed - provided that
-      - BODY has no `break` / `continue` of this loop and the loop no `else` (they would leave / resume the generator),
-      - g has no `return`, no `yield from`, no nested scope, no global/nonlocal, no *args/**kwargs, is not overridden (defined once),
-      - no yield sits under a `try` body, a `finally`, a handler or a `with` (an exception from BODY never passes through g's
-        handlers: the generator is merely suspended while BODY runs).
+    """Plain generator functions of the same class / module are written out where they are consumed on the spot.
+
+    (1) `for T in self.g(args): BODY` / `for T in g(args): BODY`: the loop is replaced by g's body (its locals renamed apart, its
+        parameters bound to the arguments in call order) with every `yield E` replaced by `T = E; BODY`.  That is what the loop
+        does - the generator runs up to a yield, the body runs with the yielded value, the generator is resumed - provided that
+          - BODY has no `break` / `continue` of this loop and the loop no `else` (they would leave / resume the generator),
+          - no yield sits under a `try` body, a `finally`, a handler or a `with` (an exception from BODY never passes through g's
+            handlers: the generator is merely suspended while BODY runs).
+    (2) `x = list(self.g(args))` (also tuple / set, also as the value of `return` or an annotated assignment): the generator is
+        run to exhaustion at once, so the statement is replaced by `x = []`, g's body with `yield E` replaced by `x.append(E)`
+        (a temporary and `tuple(tmp)` / `set(tmp)` where x cannot serve), whatever the yields are nested in.
+    In both forms g must have every `yield E` as a statement of its own, no `yield from`, no await, no nested scope, no
+    global/nonlocal, no *args/**kwargs, must not be overridden (defined once), and a bare `return` only where it can be written as
+    `break` (inside the loop that ends g's body, not inside an inner loop) or dropped (last statement).
     The pinned tree contains no generator functions: it is unchanged by this pass."""
 
     def __init__(self):
@@ -443,31 +534,31 @@ class _GenInline:
         self.dropped: List[str] = []
         self._k = 0
 
+    # ------------------------------------------------------------------ driver
     def visit(self, tree: ast.Module) -> None:
         import copy
-        mod_gens: Dict[str, ast.FunctionDef] = {}
+        self.copy = copy
         counts: Dict[str, int] = {}
         for n in ast.walk(tree):
             if isinstance(n, _FUNCS):
                 counts[n.name] = counts.get(n.name, 0) + 1
-        for st in tree.body:
-            if isinstance(st, ast.FunctionDef) and counts.get(st.name) == 1 and self._eligible(st, None):
-                mod_gens[st.name] = st
+        mod_gens = {st.name: (st, None) for st in tree.body
+                    if isinstance(st, ast.FunctionDef) and counts.get(st.name) == 1 and not st.decorator_list and self._shape(st) is not None}
         for c in [tree] + [x for x in ast.walk(tree) if isinstance(x, ast.ClassDef)]:
-            cls_gens: Dict[str, Tuple[ast.FunctionDef, str]] = {}
+            cls_gens: Dict[str, Tuple[ast.FunctionDef, Optional[str]]] = {}
             if isinstance(c, ast.ClassDef):
                 for st in c.body:
                     if isinstance(st, ast.FunctionDef) and counts.get(st.name) == 1:
                         kind = self._method_kind(st)
-                        if kind is not None and self._eligible(st, kind):
+                        if kind in ("method", "staticmethod") and self._shape(st) is not None:
                             cls_gens[st.name] = (st, kind)
             for fn in (c.body if isinstance(c, ast.ClassDef) else tree.body):
                 if isinstance(fn, _FUNCS):
-                    for _ in range(4):
-                        if not self._rewrite_in(fn, fn, mod_gens, cls_gens, copy):
+                    for _ in range(6):
+                        if not self._rewrite_in(fn, fn, mod_gens, cls_gens):
                             break
         if self.inlined:
-            # a private generator nothing refers to any more (every loop over it was replaced by its body) is dead code: dropped
+            # a private generator nothing refers to any more (every use was replaced by its body) is dead code: dropped
             for c in [tree] + [x for x in ast.walk(tree) if isinstance(x, ast.ClassDef)]:
                 for st in list(c.body):
                     if isinstance(st, ast.FunctionDef) and st.name.startswith("_") and not st.name.startswith("__") and counts.get(st.name) == 1 \
@@ -486,37 +577,41 @@ class _GenInline:
             return st.decorator_list[0].id
         return None
 
-    def _eligible(self, g: ast.FunctionDef, kind: Optional[str]) -> bool:
-        if kind is None and g.decorator_list:
-            return False
+    # ------------------------------------------------------------ what g looks like
+    def _shape(self, g: ast.FunctionDef) -> Optional[Dict[str, object]]:
+        """None when g cannot be written out at all; else {'yields': n, 'protected': a yield sits in a protected region,
+        'returns': 'none' | 'break' | 'drop' | 'both'}"""
         a = g.args
         if a.vararg or a.kwarg:
-            return False
+            return None
         yields = 0
         for n in _own_nodes(g):
-            if isinstance(n, (ast.YieldFrom, ast.Return, ast.Global, ast.Nonlocal, ast.Await) + _FUNCS + (ast.Lambda, ast.ClassDef)):
-                return False
+            if isinstance(n, (ast.YieldFrom, ast.Global, ast.Nonlocal, ast.Await) + _FUNCS + (ast.Lambda, ast.ClassDef)):
+                return None
+            if isinstance(n, ast.Return) and n.value is not None:
+                return None
             if isinstance(n, ast.Yield):
                 yields += 1
-        if not 1 <= yields <= 3:
-            return False
-        # every yield is a statement of its own, outside protected regions
-        ok = [0]
+        if not 1 <= yields <= 6:
+            return None
+        found = [0]
+        prot = [False]
 
         def blocks(body: List[ast.stmt], protected: bool) -> bool:
             for st in body:
                 if isinstance(st, ast.Expr) and isinstance(st.value, ast.Yield):
-                    if protected or st.value.value is None:
+                    if st.value.value is None:
                         return False
-                    ok[0] += 1
+                    found[0] += 1
+                    prot[0] = prot[0] or protected
                     continue
-                if any(isinstance(x, ast.Yield) for x in ast.walk(st)) and not isinstance(st, (ast.For, ast.While, ast.If, ast.Try)):
+                if any(isinstance(x, ast.Yield) for x in ast.walk(st)) and not isinstance(st, (ast.For, ast.While, ast.If, ast.Try, ast.With)):
                     return False
-                if isinstance(st, (ast.For, ast.While)):
+                if isinstance(st, (ast.For, ast.While, ast.If)):
                     if not blocks(st.body, protected) or not blocks(st.orelse, protected):
                         return False
-                elif isinstance(st, ast.If):
-                    if not blocks(st.body, protected) or not blocks(st.orelse, protected):
+                elif isinstance(st, ast.With):
+                    if not blocks(st.body, True):
                         return False
                 elif isinstance(st, ast.Try):
                     if not blocks(st.body, True) or not blocks(st.finalbody, True) or any(not blocks(h.body, True) for h in st.handlers):
@@ -525,9 +620,45 @@ class _GenInline:
                         return False
             return True
 
-        return blocks(g.body, False) and ok[0] == yields
+        if not blocks(g.body, False) or found[0] != yields:
+            return None
+        # returns: droppable (very last statement) or writable as `break` (in the loop that ends the body, not in an inner loop)
+        body = [st for st in g.body if not (isinstance(st, ast.Expr) and isinstance(st.value, ast.Constant))]
+        rets = [n for n in _own_nodes(g) if isinstance(n, ast.Return)]
+        kinds = set()
+        last = body[-1] if body else None
+        for r in rets:
+            if r is last:
+                kinds.add("drop")
+                continue
+            tail = last
+            if isinstance(tail, ast.Return) and len(body) >= 2:
+                tail = body[-2]
+            if not (isinstance(tail, (ast.For, ast.While)) and not tail.orelse and tail is body[-1]):
+                return None
 
-    def _rewrite_in(self, fn, node, mod_gens, cls_gens, copy) -> bool:
+            def inside(stmts: List[ast.stmt]) -> bool:
+                for st in stmts:
+                    if st is r:
+                        return True
+                    if isinstance(st, (ast.For, ast.AsyncFor, ast.While)):
+                        continue  # a `break` there would leave the inner loop only
+                    for fld in ("body", "orelse", "finalbody"):
+                        sub = getattr(st, fld, None)
+                        if isinstance(sub, list) and sub and isinstance(sub[0], ast.stmt) and inside(sub):
+                            return True
+                    for h in getattr(st, "handlers", []) or []:
+                        if inside(h.body):
+                            return True
+                return False
+
+            if not inside(tail.body):
+                return None
+            kinds.add("break")
+        return {"yields": yields, "protected": prot[0], "returns": kinds}
+
+    # ----------------------------------------------------------------- rewriting
+    def _rewrite_in(self, fn, node, mod_gens, cls_gens) -> bool:
         """one replacement at most (the tree changes under the walk); True when something was replaced"""
         selfname = fn.args.args[0].arg if fn.args.args else None
         for fld, val in ast.iter_fields(node):
@@ -536,59 +667,41 @@ class _GenInline:
             for i, st in enumerate(val):
                 if isinstance(st, _FUNCS + (ast.ClassDef,)):
                     continue
+                new = None
                 if isinstance(st, ast.For) and not st.orelse:
-                    new = self._expand(st, selfname, mod_gens, cls_gens, copy)
-                    if new is not None:
-                        val[i:i + 1] = new
-                        self.inlined += 1
-                        return True
-                if self._rewrite_in(fn, st, mod_gens, cls_gens, copy):
+                    new = self._expand_loop(st, selfname, mod_gens, cls_gens)
+                elif isinstance(st, (ast.Assign, ast.AnnAssign, ast.Return)) and st.value is not None:
+                    new = self._expand_collect(st, selfname, mod_gens, cls_gens)
+                if new is not None:
+                    val[i:i + 1] = new
+                    self.inlined += 1
+                    return True
+                if self._rewrite_in(fn, st, mod_gens, cls_gens):
                     return True
         for h in getattr(node, "handlers", []) or []:
-            if self._rewrite_in(fn, h, mod_gens, cls_gens, copy):
+            if self._rewrite_in(fn, h, mod_gens, cls_gens):
                 return True
         return False
 
-    def _expand(self, loop: ast.For, selfname: Optional[str], mod_gens, cls_gens, copy) -> Optional[List[ast.stmt]]:
-        call = loop.iter
+    def _callee(self, call: ast.AST, selfname, mod_gens, cls_gens):
+        """(generator definition, name g's own `self` is to be written as or None) for a direct call of a known generator"""
         if not isinstance(call, ast.Call) or any(isinstance(a, ast.Starred) for a in call.args) or any(k.arg is None for k in call.keywords):
             return None
-        g = None
-        recv_self = None
         if isinstance(call.func, ast.Name) and call.func.id in mod_gens:
-            g, kind = mod_gens[call.func.id], None
-        elif isinstance(call.func, ast.Attribute) and isinstance(call.func.value, ast.Name) and call.func.value.id == selfname and selfname is not None \
+            return mod_gens[call.func.id][0], None, False
+        if isinstance(call.func, ast.Attribute) and isinstance(call.func.value, ast.Name) and call.func.value.id == selfname and selfname is not None \
                 and call.func.attr in cls_gens:
             g, kind = cls_gens[call.func.attr]
-            if kind == "classmethod":
-                return None
-            recv_self = selfname if kind == "method" else None
-        if g is None:
-            return None
-        # the loop body neither leaves nor resumes the generator by itself
-        def own_jumps(body) -> bool:
-            for st in body:
-                for x in ast.walk(st):
-                    pass
-            stack = list(body)
-            while stack:
-                x = stack.pop()
-                if isinstance(x, (ast.Break, ast.Continue)):
-                    return True
-                if isinstance(x, (ast.For, ast.AsyncFor, ast.While) + _FUNCS + (ast.ClassDef, ast.Lambda)):
-                    # (a `break` / `continue` inside a nested loop belongs to that loop; its `else` clause does not)
-                    stack.extend(getattr(x, "orelse", []) if not isinstance(x, _FUNCS + (ast.ClassDef, ast.Lambda)) else [])
-                    continue
-                stack.extend(ast.iter_child_nodes(x))
-            return False
+            return g, (selfname if kind == "method" else None), kind == "method"
+        return None
 
-        if own_jumps(loop.body):
-            return None
+    def _instantiate(self, g: ast.FunctionDef, is_method: bool, recv_self: Optional[str], call: ast.Call, keep_free: set):
+        """-> (prelude assignments binding the parameters, g's body with locals renamed apart and `return` written as break / dropped)"""
+        copy = self.copy
         params = [p.arg for p in g.args.posonlyargs + g.args.args]
-        if g is not None and cls_gens and g.name in cls_gens and cls_gens[g.name][1] == "method":
+        gself = None
+        if is_method:
             gself, params = params[0], params[1:]
-        else:
-            gself = None
         kwonly = [p.arg for p in g.args.kwonlyargs]
         bound: Dict[str, ast.expr] = {}
         order: List[str] = []
@@ -597,8 +710,9 @@ class _GenInline:
         for p_, a_ in zip(params, call.args):
             bound[p_] = a_
             order.append(p_)
+        posonly = [q.arg for q in g.args.posonlyargs]
         for k in call.keywords:
-            if k.arg in bound or k.arg not in params + kwonly or k.arg in [q.arg for q in g.args.posonlyargs]:
+            if k.arg in bound or k.arg not in params + kwonly or k.arg in posonly:
                 return None
             bound[k.arg] = k.value
             order.append(k.arg)
@@ -619,15 +733,30 @@ class _GenInline:
                 locals_.add(n.id)
             elif isinstance(n, ast.ExceptHandler) and n.name:
                 locals_.add(n.name)
-        if gself is not None and gself in locals_ - {gself} and False:
-            return None
         body = [copy.deepcopy(st) for st in g.body if not (isinstance(st, ast.Expr) and isinstance(st.value, ast.Constant))]
+        # `return`: dropped at the very end, `break` inside the loop that ends the body (checked by _shape)
+        if body and isinstance(body[-1], ast.Return):
+            body.pop()
+
+        def ret_to_break(stmts: List[ast.stmt]) -> None:
+            for j, st in enumerate(stmts):
+                if isinstance(st, ast.Return):
+                    stmts[j] = ast.copy_location(ast.Break(), st)
+                    continue
+                for fld in ("body", "orelse", "finalbody"):
+                    sub = getattr(st, fld, None)
+                    if isinstance(sub, list) and sub and isinstance(sub[0], ast.stmt):
+                        ret_to_break(sub)
+                for h in getattr(st, "handlers", []) or []:
+                    ret_to_break(h.body)
+
+        ret_to_break(body)
+        if not body:
+            body = [ast.Pass()]
         holder = ast.Module(body=body, type_ignores=[])
-        # a parameter g never re-binds, given a plain name the loop body never re-binds (or a constant): written as that name
+        # a parameter g never re-binds, given a plain name the consumer never re-binds (or a constant): written as that name
         g_stores = {n.id for n in _own_nodes(g) if isinstance(n, ast.Name) and isinstance(n.ctx, (ast.Store, ast.Del))}
-        body_stores = {x.id for b in loop.body for x in ast.walk(b) if isinstance(x, ast.Name) and isinstance(x.ctx, (ast.Store, ast.Del))}
-        body_stores |= {x.id for x in ast.walk(loop.target) if isinstance(x, ast.Name)}
-        direct = {p_: bound[p_] for p_ in order if p_ not in g_stores and (isinstance(bound[p_], ast.Constant) or isinstance(bound[p_], ast.Name) and bound[p_].id not in body_stores)}
+        direct = {p_: bound[p_] for p_ in order if p_ not in g_stores and (isinstance(bound[p_], ast.Constant) or isinstance(bound[p_], ast.Name) and bound[p_].id not in keep_free)}
         order = [p_ for p_ in order if p_ not in direct]
         for n in ast.walk(holder):
             for fld, val in ast.iter_fields(n):
@@ -647,35 +776,123 @@ class _GenInline:
                     n.id = pre + n.id
             elif isinstance(n, ast.ExceptHandler) and n.name in locals_:
                 n.name = pre + n.name
+        prelude = [ast.copy_location(ast.Assign(targets=[ast.Name(id=pre + p_, ctx=ast.Store())], value=bound[p_]), call) for p_ in order]
+        return prelude, holder.body, pre
 
-        def splice(stmts: List[ast.stmt]) -> List[ast.stmt]:
-            out: List[ast.stmt] = []
-            for st in stmts:
-                if isinstance(st, ast.Expr) and isinstance(st.value, ast.Yield):
-                    tgt = copy.deepcopy(loop.target)
-                    val = st.value.value
-                    if isinstance(tgt, ast.Tuple) and isinstance(val, ast.Tuple) and len(tgt.elts) == len(val.elts) \
-                            and all(isinstance(t_, ast.Name) for t_ in tgt.elts) and all(isinstance(v_, (ast.Name, ast.Constant)) for v_ in val.elts):
-                        # `a, b = x, y` with plain names on both sides (disjoint: g's locals were renamed apart): one binding each
-                        for t_, v_ in zip(tgt.elts, val.elts):
-                            out.append(ast.copy_location(ast.Assign(targets=[t_], value=v_), loop))
-                    else:
-                        out.append(ast.copy_location(ast.Assign(targets=[tgt], value=val), loop))
-                    out += [copy.deepcopy(b) for b in loop.body]
+    def _splice(self, stmts: List[ast.stmt], at_yield) -> List[ast.stmt]:
+        out: List[ast.stmt] = []
+        for st in stmts:
+            if isinstance(st, ast.Expr) and isinstance(st.value, ast.Yield):
+                out += at_yield(st.value.value)
+                continue
+            for fld in ("body", "orelse", "finalbody"):
+                sub = getattr(st, fld, None)
+                if isinstance(sub, list) and sub and isinstance(sub[0], ast.stmt):
+                    setattr(st, fld, self._splice(sub, at_yield))
+            for h in getattr(st, "handlers", []) or []:
+                h.body = self._splice(h.body, at_yield)
+            out.append(st)
+        return out
+
+    def _expand_loop(self, loop: ast.For, selfname: Optional[str], mod_gens, cls_gens) -> Optional[List[ast.stmt]]:
+        copy = self.copy
+        got = self._callee(loop.iter, selfname, mod_gens, cls_gens)
+        if got is None:
+            return None
+        g, recv_self, is_method = got
+        shape = self._shape(g)
+        if shape is None or shape["protected"] or shape["yields"] > 3:
+            return None
+
+        # the loop body neither leaves nor resumes the generator by itself
+        def own_jumps(body) -> bool:
+            stack = list(body)
+            while stack:
+                x = stack.pop()
+                if isinstance(x, (ast.Break, ast.Continue)):
+                    return True
+                if isinstance(x, _FUNCS + (ast.ClassDef, ast.Lambda)):
                     continue
-                for fld in ("body", "orelse", "finalbody"):
-                    sub = getattr(st, fld, None)
-                    if isinstance(sub, list) and sub and isinstance(sub[0], ast.stmt):
-                        setattr(st, fld, splice(sub))
-                for h in getattr(st, "handlers", []) or []:
-                    h.body = splice(h.body)
-                out.append(st)
-            return out
+                if isinstance(x, (ast.For, ast.AsyncFor, ast.While)):
+                    # (a `break` / `continue` inside a nested loop belongs to that loop; its `else` clause does not)
+                    stack.extend(x.orelse)
+                    continue
+                stack.extend(ast.iter_child_nodes(x))
+            return False
 
-        new = [ast.copy_location(ast.Assign(targets=[ast.Name(id=pre + p_, ctx=ast.Store())], value=bound[p_]), loop) for p_ in order]
-        new += splice(body)
+        if own_jumps(loop.body):
+            return None
+        body_stores = {x.id for b in loop.body for x in ast.walk(b) if isinstance(x, ast.Name) and isinstance(x.ctx, (ast.Store, ast.Del))}
+        body_stores |= {x.id for x in ast.walk(loop.target) if isinstance(x, ast.Name)}
+        inst = self._instantiate(g, is_method, recv_self, loop.iter, body_stores)
+        if inst is None:
+            return None
+        prelude, body, _pre = inst
+
+        def at_yield(val: ast.expr) -> List[ast.stmt]:
+            out: List[ast.stmt] = []
+            tgt = copy.deepcopy(loop.target)
+            if isinstance(tgt, ast.Tuple) and isinstance(val, ast.Tuple) and len(tgt.elts) == len(val.elts) \
+                    and all(isinstance(t_, ast.Name) for t_ in tgt.elts) and all(isinstance(v_, (ast.Name, ast.Constant)) for v_ in val.elts):
+                # `a, b = x, y` with plain names on both sides (disjoint: g's locals were renamed apart): one binding each
+                for t_, v_ in zip(tgt.elts, val.elts):
+                    out.append(ast.copy_location(ast.Assign(targets=[t_], value=v_), loop))
+            else:
+                out.append(ast.copy_location(ast.Assign(targets=[tgt], value=val), loop))
+            return out + [copy.deepcopy(b) for b in loop.body]
+
+        new = prelude + self._splice(body, at_yield)
         for st in new:
             ast.fix_missing_locations(st)
+        return new
+
+    def _expand_collect(self, st: ast.stmt, selfname: Optional[str], mod_gens, cls_gens) -> Optional[List[ast.stmt]]:
+        """`x = list(g(args))` / `return tuple(g(args))`: g run to exhaustion into a list"""
+        copy = self.copy
+        v = st.value
+        if not (isinstance(v, ast.Call) and isinstance(v.func, ast.Name) and v.func.id in ("list", "tuple", "set") and len(v.args) == 1 and not v.keywords):
+            return None
+        got = self._callee(v.args[0], selfname, mod_gens, cls_gens)
+        if got is None:
+            return None
+        g, recv_self, is_method = got
+        if self._shape(g) is None:
+            return None
+        call = v.args[0]
+        arg_names = {x.id for x in ast.walk(call) if isinstance(x, ast.Name)}
+        tgt = None
+        if isinstance(st, ast.Assign) and len(st.targets) == 1 and isinstance(st.targets[0], ast.Name) and v.func.id == "list" and st.targets[0].id not in arg_names:
+            tgt = st.targets[0].id
+        elif isinstance(st, ast.AnnAssign) and isinstance(st.target, ast.Name) and v.func.id == "list" and st.target.id not in arg_names:
+            tgt = st.target.id
+        inst = self._instantiate(g, is_method, recv_self, call, {tgt} if tgt else set())
+        if inst is None:
+            return None
+        prelude, body, pre = inst
+        acc = tgt or pre + "acc"
+        if tgt is not None and any(isinstance(x, ast.Name) and x.id == tgt for b in body for x in ast.walk(b)):
+            return None  # (g reads a global of that name)
+
+        def at_yield(val: ast.expr) -> List[ast.stmt]:
+            app = ast.Call(func=ast.Attribute(value=ast.Name(id=acc, ctx=ast.Load()), attr="append", ctx=ast.Load()), args=[val], keywords=[])
+            return [ast.copy_location(ast.Expr(value=app), st)]
+
+        first: ast.stmt
+        if isinstance(st, ast.AnnAssign) and tgt is not None:
+            first = ast.AnnAssign(target=ast.Name(id=acc, ctx=ast.Store()), annotation=st.annotation, value=ast.List(elts=[], ctx=ast.Load()), simple=1)
+        else:
+            first = ast.Assign(targets=[ast.Name(id=acc, ctx=ast.Store())], value=ast.List(elts=[], ctx=ast.Load()))
+        # (the arguments are evaluated before the list exists in the original; an empty display has no effect, the order is immaterial)
+        new = prelude + [ast.copy_location(first, st)] + self._splice(body, at_yield)
+        if tgt is None:
+            res: ast.expr = ast.Name(id=acc, ctx=ast.Load())
+            if v.func.id != "list":
+                res = ast.Call(func=ast.Name(id=v.func.id, ctx=ast.Load()), args=[res], keywords=[])
+            st2 = copy.copy(st)
+            st2.value = res
+            new.append(st2)
+        for x in new:
+            ast.fix_missing_locations(x)
         return new
 
 
@@ -887,6 +1104,8 @@ def normalise(tree: ast.Module) -> ast.Module:
     tree._tpsa_bound_aliases = ba.inlined  # type: ignore[attr-defined]
     cm = _ConstMethods(tree)
     cm.visit(tree)
+    _StarDisplays().visit(tree)
+    _MapCalls().visit(tree)
     f = _Fold()
     f.visit(tree)  # (`table = (...)` followed by `for row in table:` becomes a loop over the display)
     u = _Unroll()
